@@ -47,6 +47,9 @@ INT_KEYS = ['Atoms', 'Elapsed', 'Elaplong', 'Part', 'Nbuild', 'Ndanger', 'Bonds'
 # ---------------------------------------------------------------------------------------------
 # stratification tables (class = deterministic function of the case index)
 MEMS = ['per-mpi-rank', 'per-processor']
+# timing breakdown printed after the loop line: 'new' = 'MPI task timing breakdown' table (timer normal), 'new-full' = the
+# same with a %CPU column (timer full), 'old' = 'Pair  time (%) = t (p)' lines (releases before 2015), 'post-no' = 'run N
+# post no' (loop line only, no histograms), 'none' = 'timer loop': loop line, no breakdown, Nlocal/Nghost histograms kept
 BREAKDOWNS = ['new', 'old', 'new-full', 'post-no', 'none']
 FORMATS = ['classic', 'aligned', 'custom']
 TRUNCS = ['complete', 'rows', 'complete', 'after-loop', 'complete', 'mid-breakdown', 'complete', 'one-row',
